@@ -21,7 +21,7 @@ EXPLANATION += (  # round-3 supplement
     " E5's unify_intvars part is decided by evaluating the function's decision code for all four flag combinations (vf/symex.py). E6 success of unify_fields is gated by a relation between both field counts. E7 the covered-variants collection of match_expr is kept duplicate-free. E8 the Never row of unification is directional (known finding)."
 )
 EXPLANATION += (
-    ' E9 record literals: a field name enters the set of names seen so far only behind a negative membership test on that same set (so a repeated field is reported whatever the expected fields are). E10 (= C14.D2) a cycle of the reference graph is rejected as soon as one member is a constant.'
+    ' E9 record literals: a field name enters the set of names seen so far only behind a negative membership test on that same set (so a repeated field is reported whatever the expected fields are). E10 (= C14.D2) a cycle of the reference graph is rejected as soon as one member is a constant. E11 (= C19.X6) every item checker resolves the deferred obligations of its body.'
 )
 ASSUMPTIONS = [
     "unify / unify_inner themselves (the unification algorithm) are trusted beyond the occurs check decided under C06",
@@ -726,6 +726,17 @@ def rule_e10(F):
     return r
 
 
+def rule_e11(F):
+    """An f-string interpolation of a type without `to_string` is a type error wherever it is written - also in a test block.  The
+    deferred obligations of every item kind are resolved before the item is accepted (shared with C19.X6)."""
+    from . import c19
+    r = c19.rule_x6(F)
+    r.rule = "C07.E11"
+    for v in r.violations:
+        v.rule = "C07.E11"
+    return r
+
+
 def rules(ctx):
     F = ctx["F"]
-    return [rule_e1(F), rule_e2(F), rule_e3(F), rule_e4(F), rule_e5(F), rule_e6(F), rule_e7(F), rule_e8(F), rule_e9(F), rule_e10(F)]
+    return [rule_e1(F), rule_e2(F), rule_e3(F), rule_e4(F), rule_e5(F), rule_e6(F), rule_e7(F), rule_e8(F), rule_e9(F), rule_e10(F), rule_e11(F)]
